@@ -141,8 +141,36 @@ def out_item(o):
     raise ValueError('unknown out type ' + label)
 
 
+CONST_CMPS = {}
+
+
+def is_closed(t):
+    h = t[0]
+    if h in ('in', 'uninit'):
+        return False
+    if h in ('lit', 'named'):
+        return True
+    if h == 'cast':
+        return is_closed(t[2])
+    if h == 'powi':
+        return is_closed(t[3])
+    if h in sexpr.UNOPS:
+        return is_closed(t[2])
+    return is_closed(t[2]) and is_closed(t[3])
+
+
 def dtree(t):
     k = t['t']
+    if k == 'node':
+        a, b = sexpr.parse(t['a']), sexpr.parse(t['b'])
+        if is_closed(a) and is_closed(b):
+            # a comparison between two compile-time constants has one outcome for all inputs: fold it,
+            # and record it so that Lean re-checks the outcome (ConstCmp obligation)
+            yes_dead = t['yes']['t'] == 'unexplored'
+            no_dead = t['no']['t'] == 'unexplored'
+            if yes_dead != no_dead:
+                CONST_CMPS[(t['op'], t['a'], t['b'], no_dead)] = True
+                return dtree(t['no'] if yes_dead else t['yes'])
     if k == 'leaf':
         return '(.leaf [' + ', '.join(out_item(o) for o in t['outs']) + '])'
     if k == 'node':
@@ -253,6 +281,8 @@ class Emitter:
         opr = OPR.get(meta.get('name', ''), '.named')
         if meta['kind'] == 'free' and meta.get('name') == 'operator-' and len(args) == 1:
             opr = '.named'
+        if meta['kind'] == 'model-compare':
+            opr = OPR.get(meta.get('name', ''), '.named')
         if meta.get('name') in ('Value', 'SetValue', 'MutableValue', 'StaticValue'):
             opr = '.valueAccess'
         eid = e['id'] + name_suffix
@@ -344,6 +374,9 @@ class Emitter:
         emit_fmt_triples(self)
         emit_model_overloads(self)
         self.n_inverse_pairs = emit_inverse_pairs(self)
+        emit_hash_rows(self)
+        emit_angle_lists(self)
+        emit_const_cmps(self)
         self._emit_pairs = lambda umods: emit_pairs_obligations(self, umods)
         # aggregate
         lines = ['-- GENERATED by emit_lean.py -- do not edit.']
@@ -476,6 +509,8 @@ OBLIGATIONS = [
     ('C04std', 'Q', 'Chk.C04std', 'quantityEntries'),
     ('C02unit', 'U', 'Chk.C02unit', 'unitEntries'),
     ('C02class', 'Q', 'Chk.C02class', 'quantityEntries'),
+    ('C14cmpQ', 'Q', 'Chk.C14cmp', 'quantityEntries'),
+    ('C14cmpM', 'M', 'Chk.C14cmp', 'modelEntries'),
     ('C16cast', 'Q', 'Chk.C16cast', 'quantityEntries'),
     ('C17access', 'Q', 'Chk.C17access', 'quantityEntries'),
     ('C20uninitQ', 'Q', 'Chk.C20uninitStrict', 'quantityEntries'),
@@ -722,6 +757,74 @@ def emit_inverse_pairs(em):
     em.write('Obl_C05inv.lean', '\n'.join(L) + '\n')
     json.dump(pairs_json, open(os.path.join(em.cache, 'inverse_pairs.json'), 'w'))
     return len(rows)
+
+
+def emit_hash_rows(em):
+    rows, mods = [], set()
+    for e in em.model:
+        m = e['meta']
+        if m['kind'] not in ('hash', 'model-hash'):
+            continue
+        for fmt in (32, 64, 80):
+            v = e['instances'][0]['fmts'].get(str(fmt))
+            if v is None or v['tree']['t'] != 'leaf':
+                continue
+            hashed = [ev[5:] for ev in v['tree']['events'] if ev.startswith('hash:')]
+            rows.append('(f%d.%s, [%s])' % (fmt, ident(e['id']), ', '.join(expr(sexpr.parse(h)) for h in hashed)))
+            mods.add(('M_' + m['cls'][6:]) if m['cls'].startswith('model:') else ('Q_' + m['cls']))
+    imports = ['PhQVerif.Core.Model'] + ['PhQVerif.Generated.%s' % x for x in sorted(mods)]
+    emit_list_with_obligation(em, 'HashRows', 'Entry × List Expr', rows, imports, 'Chk.C14hash', 'C14hash')
+
+
+def emit_const_cmps(em):
+    rows = []
+    for (op, a, b, outcome) in sorted(CONST_CMPS):
+        rows.append('(.%s, %s, %s, %s)' % (op, expr(sexpr.parse(a)), expr(sexpr.parse(b)),
+                                           'true' if outcome else 'false'))
+    emit_list_with_obligation(em, 'ConstCmp', 'CmpOp × Expr × Expr × Bool', rows, ['PhQVerif.Core.Model'],
+                              'Chk.ConstCmp', 'ConstCmp')
+
+
+def emit_angle_lists(em):
+    vec = {c['name']: c['comps'] for c in em.classes if c['comps'] in (2, 3)}
+    ents = []
+    for e in em.model:
+        m = e['meta']
+        if m['cls'].startswith(('unit:', 'model:')) or m.get('unit') or m.get('ufmt'):
+            continue
+        args = ([m['cls']] if m.get('self') else []) + list(m.get('args', []))
+        isang = (m['cls'] == 'Angle' and m['kind'] == 'ctor' and len(args) == 2 and all(a in vec for a in args)) \
+            or (m.get('name') == 'Angle' and m['kind'] == 'method' and len(args) == 2 and all(a in vec for a in args))
+        if isang:
+            ents.append((e, args))
+    rows_all, rows_sym, rows_ker, mods = [], [], [], set()
+    by_args = {}
+    for e, args in ents:
+        by_args.setdefault((e['meta']['kind'], tuple(args)), e)
+    kernel_of = {2: {}, 3: {}}
+    for e, args in ents:
+        if e['meta']['cls'] == 'Angle' and all(a in ('Vector', 'PlanarVector', 'Direction', 'PlanarDirection') for a in args):
+            shape = tuple('D' if 'Direction' in a else 'V' for a in args)
+            kernel_of[vec[args[0]]][shape] = e
+    for e, args in ents:
+        mods.add('Q_' + e['meta']['cls'])
+        for fmt in (32, 64, 80):
+            rows_all.append('f%d.%s' % (fmt, ident(e['id'])))
+        other = by_args.get((e['meta']['kind'], tuple(reversed(args))))
+        if other is not None:
+            mods.add('Q_' + other['meta']['cls'])
+            for fmt in (32, 64, 80):
+                rows_sym.append('(f%d.%s, f%d.%s)' % (fmt, ident(e['id']), fmt, ident(other['id'])))
+        shape = tuple('D' if 'Direction' in a else 'V' for a in args)
+        k = kernel_of[vec[args[0]]].get(shape)
+        if k is not None and k is not e:
+            mods.add('Q_' + k['meta']['cls'])
+            for fmt in (32, 64, 80):
+                rows_ker.append('(f%d.%s, f%d.%s)' % (fmt, ident(e['id']), fmt, ident(k['id'])))
+    imports = ['PhQVerif.Core.Model'] + ['PhQVerif.Generated.%s' % x for x in sorted(mods)]
+    emit_list_with_obligation(em, 'AngleEntries', 'Entry', rows_all, imports, 'Chk.C11clamp', 'C11clamp')
+    emit_list_with_obligation(em, 'AngleSym', 'Entry × Entry', rows_sym, imports, 'Chk.C11sym', 'C11sym')
+    emit_list_with_obligation(em, 'AngleKernel', 'Entry × Entry', rows_ker, imports, 'Chk.C11kernel', 'C11kernel')
 
 
 def emit_dircast(em):
